@@ -461,6 +461,9 @@ func runC07(cfg *vh.Config) error {
 			if strings.Contains(c.Err.Error(), "listRequest is not supported on a method") {
 				sig = sigListRequest
 			}
+			if strings.Contains(c.Err.Error(), "TimestampField_Rules") && strings.Contains(c.Err.Error(), "unsupported scalar type *schema_j5pb.Field_Timestamp") {
+				sig = "C07 documented language not accepted: timestamp rules minimum / maximum (unsupported scalar type)"
+			}
 			res.Fail(vh.Failure{Case: caseNo, Stream: "decl", Sig: sig, Clause: "every package within the documented language is accepted and links", Input: in, Got: c.Err.Error()})
 			checkPositions(res, caseNo, "decl", "declaration "+d.Name, cmpb.Positions(c.Err), d.Files, d.Main, in)
 		default:
@@ -528,7 +531,11 @@ func runC07(cfg *vh.Config) error {
 			checkPositions(res, caseNo, "mut", "malformed input (lint returned error)", cmpb.Positions(l.Err), content, mainFile, in)
 		case len(l.Pos) > 0:
 			res.Count("lint_reported")
-			checkPositions(res, caseNo, "mut", "malformed input (lint report)", l.Pos, content, mainFile, in)
+			// a report on a package that COMPILES is a warning, not an error of a rejected package: the property
+			// says nothing about where warnings point (audit of known findings L75)
+			if c.Err != nil {
+				checkPositions(res, caseNo, "mut", "malformed input (lint report)", l.Pos, content, mainFile, in)
+			}
 		default:
 			res.Count("lint_clean")
 		}
@@ -587,7 +594,7 @@ func runC07(cfg *vh.Config) error {
 			if l.Panic == nil && !l.TimedOut && li < len(j5s) {
 				if l.Err != nil {
 					checkPositions(res, caseNo, "sem", "semantic error "+d.Name+" (LintFile returned error)", cmpb.Positions(l.Err), d.Files, j5s[li], in)
-				} else if len(l.Pos) > 0 {
+				} else if len(l.Pos) > 0 && c.Err != nil {
 					checkPositions(res, caseNo, "sem", "semantic error "+d.Name+" (LintFile report)", l.Pos, d.Files, j5s[li], in)
 				}
 			}
@@ -601,7 +608,7 @@ func runC07(cfg *vh.Config) error {
 		if la.Panic == nil && !la.TimedOut {
 			if la.Err != nil {
 				checkPositions(res, caseNo, "sem", "semantic error "+d.Name+" (LintAll returned error)", cmpb.Positions(la.Err), d.Files, d.Main, in)
-			} else if len(la.Pos) > 0 {
+			} else if len(la.Pos) > 0 && c.Err != nil {
 				checkPositions(res, caseNo, "sem", "semantic error "+d.Name+" (LintAll report)", la.Pos, d.Files, d.Main, in)
 			}
 		}
